@@ -23,18 +23,25 @@ func genYModsCase(r *Rng) Case {
 	visible := func(from string) []string { return append([]string{from}, imports[from]...) }
 	var specs []any
 	all := map[string]mspec{}
+	// half of the cases use the same local names for the features, identities and typedefs of every module
+	// (a definition is identified by module and name, never by its name alone)
+	shared := r.Chance(50)
 	for _, m := range mods {
 		s := mspec{"name": m}
 		nf, ni, nt, ng := 2+r.Intn(2), 2+r.Intn(2), 2+r.Intn(2), 2+r.Intn(2)
+		dn := m
+		if shared {
+			dn = "x"
+		}
 		var feats, idents, tdefs, groups []any
 		for i := 0; i < nf; i++ {
-			feats = append(feats, mspec{"n": fmt.Sprintf("%sf%d", m, i)})
+			feats = append(feats, mspec{"n": fmt.Sprintf("%sf%d", dn, i)})
 		}
 		for i := 0; i < ni; i++ {
-			idents = append(idents, mspec{"n": fmt.Sprintf("%si%d", m, i), "base": ""})
+			idents = append(idents, mspec{"n": fmt.Sprintf("%si%d", dn, i), "base": ""})
 		}
 		for i := 0; i < nt; i++ {
-			tdefs = append(tdefs, mspec{"n": fmt.Sprintf("%st%d", m, i), "base": pick(r, []string{"int8", "string", "uint16"})})
+			tdefs = append(tdefs, mspec{"n": fmt.Sprintf("%st%d", dn, i), "base": pick(r, []string{"int8", "string", "uint16"})})
 		}
 		for i := 0; i < ng; i++ {
 			groups = append(groups, mspec{"n": fmt.Sprintf("%sg%d", m, i), "leaf": fmt.Sprintf("%sgl%d", m, i)})
